@@ -358,7 +358,16 @@ func (e *Exec) execSelect(fr *Frame, st *State, x *ssa.Select) {
 	e.selectHook(fr, st, x, res)
 }
 
-func (e *Exec) execSend(fr *Frame, st *State, x *ssa.Send) { e.sendHook(fr, st, x) }
+func (e *Exec) execSend(fr *Frame, st *State, x *ssa.Send) {
+	e.sendHook(fr, st, x)
+	e.handOver(fr, st, e.val(fr, x.X, st), "true")
+	if fr.top && e.fc != nil {
+		if cs, ok := e.callOrd[x]; ok && e.hasSiteAfter(cs) {
+			ch, v := e.val(fr, x.Chan, st), e.val(fr, x.X, st)
+			e.runSiteAfter(fr, st, x, cs, []*Val{&ch, &v}, nil)
+		}
+	}
+}
 
 func (e *Exec) execRecv(fr *Frame, st *State, x *ssa.UnOp) {
 	var v Val
@@ -443,6 +452,7 @@ func (e *Exec) selectHook(fr *Frame, st *State, x *ssa.Select, res Val) {
 		cl := e.chanLogOf(ch)
 		cond := sEq(idx, sInt(int64(i)))
 		if s.Dir == types.SendOnly {
+			e.handOver(fr, st, e.val(fr, s.Send, st), cond)
 			if cl != nil {
 				e.logSend(st, cl, e.val(fr, s.Send, st), cond)
 			}
@@ -463,7 +473,6 @@ func (e *Exec) sendHook(fr *Frame, st *State, x *ssa.Send) {
 		e.logSend(st, cl, e.val(fr, x.X, st), "true")
 	}
 }
-func (e *Exec) checkFrozen(fr *Frame, st *State, in ssa.CallInstruction, x Val)      {}
 
 // ---- maps -----------------------------------------------------------------------
 // A map is a reference m; MAPD_<K>[m] is its domain (Array K Bool) and
